@@ -968,7 +968,12 @@ def _run(prop, tier, seed, ev, tools, rundir):
     vlib.log("[C17] corpus: %d cases, %d validated against the model, %d failing" % (ctot, cval, len(cfails)))
     if cfails:
         ev.cov["problems"] = problems
-        report_failure(prop, ev, tools, cfails)
+        ev.cov["evaluations"] = ctot
+        ev.cov["traces_validated_against_impl"] = cval
+        ev.cov["distinct_nontrivial"] = 0
+        ev.cov["rule"] = "stopped at the corpus (regression cases run first): a corpus case fails"
+        rp = report_failure(prop, ev, tools, cfails)
+        ev.cov["samples"] = [open(rp).read()]
         return 1
     tg = time.time()
     cases, stats = generate(seed, gen_tier)
@@ -1019,7 +1024,8 @@ def _run(prop, tier, seed, ev, tools, rundir):
     ev.cov["wall_breakdown_s"] = {"build": round(tg - t0, 1), "generate": round(tr - tg, 1), "run": round(time.time() - tr, 1)}
     if fails:
         ev.cov["problems"] = problems
-        report_failure(prop, ev, tools, fails)
+        rp = report_failure(prop, ev, tools, fails)
+        ev.cov["samples"] = [open(rp).read()] + ev.cov["samples"][:1]
         return 1
     if problems:
         # the tie is broken (translator / proofs / model build) and no failing input was found
